@@ -104,12 +104,12 @@ class TlcResult:
 
 def run_tlc(module: str, cfg: str | None = None, *, work: str, env: dict | None = None,
             workers: int | str = 1, timeout: int = 1800, extra: list[str] | None = None,
-            heap: str = "8g", check: bool = True, specdir: str = SPEC) -> TlcResult:
+            heap: str = "8g", check: bool = True, specdir: str = SPEC, libs: list[str] | None = None) -> TlcResult:
     """Run TLC on spec/<module>.tla with spec/<cfg>. `work` holds the metadir. Raises MachineryError
     on timeout or (when check) on any TLC error that is not an invariant/property violation."""
     import uuid
     meta = os.path.join(work, "meta_%s_%s" % (module, uuid.uuid4().hex[:12]))
-    cmd = ["java", "-XX:+UseParallelGC", "-Xmx" + heap, "-Xss256m", "-cp", TLA_CP, "tlc2.TLC",
+    cmd = ["java", "-XX:+UseParallelGC", "-Xmx" + heap, "-Xss256m"] + (["-DTLA-Library=" + os.pathsep.join(libs)] if libs else []) + ["-cp", TLA_CP, "tlc2.TLC",
            "-workers", str(workers), "-metadir", meta, "-noGenerateSpecTE"]
     if cfg:
         cmd += ["-config", cfg]
